@@ -92,8 +92,16 @@ func (dht *IpfsDHT) getPublicKeyFromDHT(ctx context.Context, p peer.ID) (ci.PubK
 		return nil, err
 	}
 
-	// Note: No need to check that public key hash matches peer ID
-	// because this is done by GetValues()
+	// The /pk validator checks that the key matches the peer ID it is filed
+	// under, but the validator is configuration: make sure here as well, as for
+	// a key obtained from the node itself.
+	id, err := peer.IDFromPublicKey(pubk)
+	if err != nil {
+		return nil, err
+	}
+	if id != p {
+		return nil, fmt.Errorf("public key retrieved from DHT for %v does not match the peer ID", p)
+	}
 	logger.Debugf("Got public key for %s from DHT", p)
 	return pubk, nil
 }
